@@ -3,8 +3,14 @@ import GoImap.Drive.C20
 import GoImap.Drive.C16
 import GoImap.Drive.C19
 import GoImap.Drive.C07
+import GoImap.Drive.C09
+import GoImap.Drive.C05
+import GoImap.Drive.C13
 import GoImap.Drive.C01
 import GoImap.Drive.C12
+import GoImap.Drive.C14
+import GoImap.Drive.C17
+import GoImap.Drive.C03
 open GoImap
 
 /-- one case per input line, tab-separated; the first field names the property -/
@@ -15,8 +21,14 @@ def dispatch (line : String) : String :=
   | "C16" :: rest => DriveC16.handle rest
   | "C19" :: rest => DriveC19.handle rest
   | "C07" :: rest => DriveC07.handle rest
+  | "C09" :: rest => DriveC09.handle rest
+  | "C05" :: rest => DriveC05.handle rest
+  | "C13" :: rest => DriveC13.handle rest
   | "C01" :: rest => DriveC01.handle rest
   | "C12" :: rest => DriveC12.handle rest
+  | "C14" :: rest => DriveC14.handle rest
+  | "C17" :: rest => DriveC17.handle rest
+  | "C03" :: rest => DriveC03.handle rest
   | _ => "?\t0\tfail:unknown-property\t-"
 
 partial def loop (hin hout : IO.FS.Stream) : IO Unit := do
